@@ -24,7 +24,7 @@ fn enumerate_paths(max_depth: usize, segs: &[&str]) -> Vec<String> {
 
 fn random_path(rng: &mut Rng, abs: bool) -> String {
     let n = rng.below(9);
-    let segs = ["a", "b", "c", "dir", "f.graphql", ".", "..", "..", "x y", "é", "", "...", ".a"];
+    let segs = ["a", "b", "c", "dir", "f.graphql", ".", "..", "..", "x y", "é", "", "...", ".a", "A", "Dir", "DIR", "F.GraphQL", "a ", "di"];
     let mut s = String::new();
     if abs {
         s.push('/');
@@ -194,9 +194,13 @@ fn layouts(args: &Args, rep: &mut Report, rng: &mut Rng) {
     let schema_outs = [
         "generated/schema.d.ts", "schema.d.ts", "src/generated/deep/schema.d.ts", "src/ops/schema.d.ts", ".generated/schema.d.ts", "src/.hidden/types/schema.d.ts",
         "out/schema.ts", "out/schema.mts", "out/schema.d.cts", "src/ops/nested/.gen/schema.d.mts", "src/..meta/schema.d.ts",
+        // confusable with the input directories (schema/, schema/sub/, src/ops, …): case only, or a shared component name after the paths diverge
+        "Schema/schema.d.ts", "gen/sub/schema.d.ts", "SRC/ops/schema.d.ts", "generated/Ops/schema.d.ts", "src/graphql/schema.d.ts",
     ];
-    let op_dir_sets: [&[&str]; 5] = [&["src/ops"], &["src/ops", "src/ops/nested"], &["src/ops", "other/dir/deep"], &[".", "src/a/b/c"], &["src/ops", "src/.hidden"]];
-    let n = args.budget(14, 55);
+    let op_dir_sets: [&[&str]; 8] = [&["src/ops"], &["src/ops", "src/ops/nested"], &["src/ops", "other/dir/deep"], &[".", "src/a/b/c"], &["src/ops", "src/.hidden"],
+        // directories that differ from an output directory only by case / share a component name at the same depth after diverging
+        &["Generated/ops", "src/Generated"], &["SRC/ops", "src/OPS"], &["gen/graphql", "src/graphql"]];
+    let n = args.budget(16, 60);
     for i in 0..n {
         let so = if i < schema_outs.len() { schema_outs[i] } else { schema_outs[rng.below(schema_outs.len())] };
         let ods = if i < op_dir_sets.len() { op_dir_sets[i] } else { op_dir_sets[rng.below(op_dir_sets.len())] };
@@ -307,7 +311,10 @@ fn main() {
     ctx.pairs(&corpus.iter().map(|(a, b)| (a.to_string(), b.to_string())).collect::<Vec<_>>());
 
     // exhaustive families: the property's alphabet {a, b, ., ..}, and one with dot-prefixed ordinary names
-    let families: [(&[&str], usize); 2] = [(&["a", "b", ".", ".."], args.budget(3, 5)), (&["a", ".h", "..m", ".", ".."], args.budget(3, 4))];
+    // third family: CONFUSABLE names — equal up to ASCII case, prefixes of one another, trailing dot / blank, composed vs
+    // decomposed accents: any "normalising" comparison of components (case-insensitive, trimmed, prefix-based) shows up here
+    let families: [(&[&str], usize); 3] = [(&["a", "b", ".", ".."], args.budget(3, 5)), (&["a", ".h", "..m", ".", ".."], args.budget(3, 4)),
+        (&["ab", "AB", "Ab", "a", "ab.", "ab ", "\u{e9}", "e\u{301}", ".", ".."], args.budget(3, 3))];
     for (segs, depth) in families.iter() {
         let paths = enumerate_paths(*depth, segs);
         let mut batch = vec![];
